@@ -29,9 +29,11 @@ from props import purity_inputs as P
 HERE = os.path.dirname(os.path.dirname(os.path.abspath(__file__)))
 
 
-def run_sub(seed, job=None, probe=False, timeout=600):
+def run_sub(seed, job=None, probe=False, timeout=1800, tz=None):
     env = dict(os.environ)
     env["PYTHONHASHSEED"] = str(seed)
+    if tz:
+        env["TZ"] = tz  # POSIX form, needs no zone database
     if probe:
         code = ("import json;T=%r;print(json.dumps({k:list(set(v)) for k,v in T.items()}))" % (P.TRACKED,))
         r = subprocess.run([sys.executable, "-c", code], env=env, capture_output=True, text=True, timeout=60)
@@ -85,6 +87,8 @@ def small_variants(inp, depth, tier="quick"):
             out.append({"lib": "ufoLib2", "load": "memory", "inplace": False, "history": list(hist), "perm": None})
     return out
 
+
+TIME_ZONES = ["JST-9", "PST8"]  # east and west of UTC
 
 FULL_PARTS = [("ufoLib2", "memory"), ("ufoLib2", "disk-lazy"), ("ufoLib2", "disk-eager"), ("defcon", "memory"),
               ("defcon", "disk-eager"), ("perm", None)]
@@ -199,7 +203,7 @@ class C08(Property):
             "construction-order permutation); non-trivial = variant differs from the reference in at "
             "least one dimension")
     assumptions = [
-        "SOURCE_DATE_EPOCH pins timestamps (set by ./check)",
+        "SOURCE_DATE_EPOCH pins timestamps (set by ./check); the process time zone (TZ) is varied",
         "only the string-hash order is scheduled; no code path ordering by id() was found",
         "name sets larger than the tracked 4-element sets are covered by the orders actually realised",
     ]
@@ -240,6 +244,10 @@ class C08(Property):
             seeds = seeds[:b["history_input_seeds"]]  # inputs that exist for a call-history effect only
         for s in seeds:
             yield {"seed": s, "mode": "small"}
+        # the process time zone is part of the environment too: SOURCE_DATE_EPOCH pins the timestamps
+        # whatever the local zone is
+        for tz in TIME_ZONES:
+            yield {"seed": 0, "mode": "small", "tz": tz}
         for s in b["full_seeds"]:
             for part in range(len(FULL_PARTS)):
                 if FULL_PARTS[part][0] == "perm" and h[0]["input"] not in ("rich", "rich+fea", "ds2"):
@@ -268,7 +276,7 @@ class C08(Property):
         ref = json.load(open(refpath))
         seed, mode = h[1]["seed"], h[1]["mode"]
         variants = small_variants(inp, b["hist_depth"], b["tier"]) if mode == "small" else full_variants(inp, b["nperm"], h[1]["part"])
-        out = run_sub(seed, {"input": inp, "variants": variants})
+        out = run_sub(seed, {"input": inp, "variants": variants}, tz=h[1].get("tz"))
         viols, seen, failing = [], set(), []
         ctr = {"subprocesses": 1, "variants": len(variants), "compared": 0}
         for k, lst in out["orders"].items():
@@ -280,6 +288,8 @@ class C08(Property):
             dims = []
             if seed != 0:
                 dims.append("seed")
+            if h[1].get("tz"):
+                dims.append("tz")
             if len(v["history"]) > 1:
                 dims.append("history")
             if v["lib"] != "ufoLib2":
